@@ -21,6 +21,9 @@ type ShareScenario struct {
 	Pre     int        // park mode: thread 1 performs its first Pre operations BEFORE thread 0 (the victim) starts
 }
 
+// ShareForcedShapes: how many of the next generated scenarios are forced counterexample shapes (set to 4 by drive-share -park)
+var ShareForcedShapes int
+
 // ShareOnly: no connectable scenarios (drive-share -shareonly, for ShareImplTrace.tla)
 var ShareOnly bool
 
